@@ -244,4 +244,18 @@ CHECKS["C11"] = {
           "have no text form in .cfg files (not covered). Known finding D29 (online_filter min/max given as text stay strings).",
   "technique": "contract-based deductive verification: AST-generated VCs over the converter and dictionary code discharged by z3; bounded "
                "round-trip replay for the text and HDF5 formats"}
+CHECKS["C12"] = {
+  "text": "Proof (symbolic arrays, rank/select model) that Statistics.get_feature returns exactly the finite values of the feature at the "
+          "events passing filter.all (all events with filtering disabled), in order -- the two-step selection equals the one-step selection "
+          "a dataset of only the selected events would make; Statistics.__call__ applies the registered method to exactly that data and "
+          "yields NaN for an empty selection; the registry maps Mean/Median/SD to numpy's average/median/std. Data-flow obligations "
+          "(structural signatures of opaque values) for get_kde_scatter, get_kde_contour and kde_contours.get_quantile_levels: features are "
+          "restricted to filter.all before anything else, scaling / bin spacing are computed from the restricted data, the estimator "
+          "receives only those, and NaN and infinite events of both coordinates are dropped (get_bad_vals) before grid and quantiles.",
+  "note": "Not decided: that each density estimator equals its reference estimator (scipy / statsmodels numerical code), the quantile "
+          "property of the bisection in _find_quantile_level, Mode. Downsampled scatter data are C16's subject, filtered text exports "
+          "C02's. The bounded layer compares, on every run, statistics / KDE scatter / KDE contour / quantile levels of a filtered dataset "
+          "with NaN and inf values against a dataset holding only the selected events (labelled bounded).",
+  "technique": "contract-based deductive verification: AST-generated VCs over the rank/select array model discharged by z3; structural "
+               "data-flow obligations; bounded native replay for the estimators"}
 NOT_APPLICABLE = {}
